@@ -6,6 +6,7 @@
    any function assigns them.  Gen/ImportsSrc.v: updateImports sorts before it names. *)
 From Coq Require Import List String Arith Bool.
 Import ListNotations.
+From DV Require Import Proofs.GobuildProofs.
 From DV Require Import Model.Decision Gen.DecisionSrc Proofs.PathOrderProofs.
 From DV Require Import Model.Conc Proofs.ConcProofs Gen.Access Gen.ImportsSrc
   Model.Resolvers Model.Decision Model.DecisionInterp Gen.DecisionSrc Proofs.DecisionProofs Gen.PuritySrc.
@@ -100,6 +101,19 @@ Proof. exact path_order_source_is_model. Qed.
 Theorem C16_path_order_source_is_within_the_vocabulary : order_vocabulary_ok = true.
 Proof. vm_compute. reflexivity. Qed.
 
+
+(* The gobuild name resolver is more than "writes only locals" (the lint above): its source is translated on
+   every run (the defaulted locals fp and bc are conditional assignments, rendered by forking) and proved to be
+   a function of the resolver's fields and of the ONE finder call it makes: a hint wins; else the FindPackage
+   field if set, otherwise build.Context's Import, is called with the Context field if set, otherwise
+   &build.Default -- that call and no other; its error, or a nil package, is an error; else the package's name.
+   Nothing is written: the shared default build context is only passed on. *)
+Theorem C16_gobuild_resolver_source_computes_the_model :
+  forall hint fp_nil ctx_nil fails nilp,
+    gb_outcome (run (gb_val hint fp_nil ctx_nil fails nilp) gobuild_resolvepackage_src)
+    = Some (gobuild_spec hint fp_nil ctx_nil fails nilp).
+Proof. exact gobuild_source_is_model. Qed.
+
 Print Assumptions C16_shared_resolver_accesses_hold_the_mutex.
 Print Assumptions C16_shared_state_is_the_per_file_cache.
 Print Assumptions C16_name_resolvers_are_pure_functions_of_their_map.
@@ -110,3 +124,4 @@ Print Assumptions C16_cache_is_transparent.
 Print Assumptions C16_import_names_do_not_follow_map_order.
 Print Assumptions C16_path_order_source_computes_the_model.
 Print Assumptions C16_path_order_source_is_within_the_vocabulary.
+Print Assumptions C16_gobuild_resolver_source_computes_the_model.
